@@ -109,7 +109,7 @@ class C01(Prop):
         "CPython's parser, `str.lower/strip`, `json.loads` and `ast.literal_eval` are environment: their outcome on "
         "each input string is computed by CPython and handed to the model",
         "tool bodies and allow-listed callables return or raise ordinary exceptions; the console (sys.stdout) is a "
-        "UTF-8 sink unless a `console` line replaces it (closed / strict narrow encoding / lossy / k-th write fails)",
+        "UTF-8 sink unless a `console` line replaces it (closed / strict narrow encoding / lossy / the k-th writing call fails)",
         "`pathway` is None or a MetabolicPathway member (the annotated domain)",
         "recursion-limit effects (walker nesting between ~300 and the parser's own limit) are exercised by the "
         "totality oracle only, not by the model correspondence",
@@ -365,7 +365,7 @@ class C01(Prop):
 
     # the console axis: kinds x position of the failing write
     CONSOLES = [("closed", 0), ("ascii", 0), ("latin1", 0), ("cp1252", 0), ("asciirepl", 0), ("asciibs", 0), ("utf8", 0)] \
-        + [("failat", k) for k in (1, 2, 3, 4, 5, 6, 9)] + [("failatv", k) for k in (1, 2, 3, 4)]
+        + [("failat", k) for k in (1, 2, 3, 5, 8)] + [("failatv", k) for k in (1, 2)] + [("failnl", k) for k in (1, 2, 4)]
 
     def _on_console(self, case, r):
         """the same case with `sys.stdout` replaced somewhere after the first engine was built (own random stream, so
@@ -380,8 +380,8 @@ class C01(Prop):
                 t[2] = "0"
                 lines[j] = " ".join(t)
         kind, k = r.choice(self.CONSOLES)
-        if kind.startswith("failat"):
-            k = r.choice([1, 2, 3, 4, 5, 7, 8, 11, 12])
+        if kind.startswith("fail"):
+            k = r.choice([1, 1, 2, 3, 4, 6])
         lines.insert(r.randrange(cfgs[0] + 1, len(lines) + 1), mito.console_line(kind, k))
         if r.random() < 0.3:
             kind, k = r.choice(self.CONSOLES)
@@ -653,7 +653,7 @@ class C01(Prop):
         spaces.append({"name": "allow-list tables of a live engine narrowed (instance / class / in place / BioAgent's own "
                                "engine / subclass control) x every position of a dropped name or operator", "cases": cases})
         # the console: every kind of stream x silent off / on x every entry point x auto-detected / forced pathway; a
-        # second engine on the same stream (the stream's write count runs on), a repaired console
+        # second engine on the same stream (the stream's count of writing calls runs on), a repaired console
         cases = []
         for (kind, k) in self.CONSOLES:
             for silent in (False, True):
@@ -679,7 +679,7 @@ class C01(Prop):
             lines.append(mito.console_line("utf8", 0))
             lines.append(mito.met_line("auto", "t0 + t1"))
             cases.append({"lines": lines, "note": "console"})
-        spaces.append({"name": "console faults (closed / strict narrow encoding / lossy / k-th write fails) x silent "
+        spaces.append({"name": "console faults (closed / strict narrow encoding / lossy / k-th writing call fails) x silent "
                                "off / on x entry point x auto / forced pathway", "cases": cases})
         # raw strings
         cases = []
